@@ -22,6 +22,12 @@ TEXT = {
  "C18": ("6.C18", "Trace validation on scenarios with error-injecting checkers: a failing check counts as inconsistent (task executed / scheduled, never reused), reported error count equals the failures the specification predicts, builds return, outputs still equal the from-scratch oracle."),
  "C19": ("6.C19", "Trace validation on scenarios with armed crash points (any task, any operation index) and diagnosed violations followed by further sessions: no internal-error panic afterwards, returning sessions satisfy the from-scratch oracle, repeated aborts only for violations the oracle also has."),
  "C20": ("6.C20", "Trace validation on role-changing and well-formed scenarios: every diagnosis abort must be matched by a from-scratch build of all known tasks (in some order) that aborts too; role-inversion patterns K3/K4/K5 are recorded findings."),
+ "C10": ("6.C10", "The Pearce-Kelly algorithm as written (DagPK.tla) is model-checked exhaustively against the abstract DAG for all operation sequences within node/operation bounds; operation sequences (TLC-simulated and random, with interleaved removals and operations on removed nodes) are executed on the real pie_graph::DAG and every rank, result and snapshot is validated by TLC (DagTrace.tla): ranks a bijection onto 1..n respecting all edges, cycle rejection exact, rejected operations change nothing."),
+ "C11": ("6.C11", "Same exploration as C10 with the query formulas: for every pair of created nodes after every operation, contains_edge, contains_transitive_edge (twice), adjacency in first-insertion order with the data of the first insertion, descendants (sorted and unsorted), topo_cmp and the results of the three removal operations must equal the abstract DAG advanced from the operation arguments alone."),
+ "C12": ("6.C12", "Exhaustive: the documented relation Rel (UnitModels.tla) is checked by TLC against the transcription of the code used by the build-level specification for all 5 x 8 x 8 cases, and every case is executed on the real checkers (through the trait and through the object-safe proxy) and validated by TLC (UnitTrace.tla)."),
+ "C13": ("6.C13", "A TLA+ model of one filesystem path (absent / file content / directory listing, modification time) is advanced from the harness's actions on real temporary files with explicitly set modification times; stamps through all three routes, reads through stamped readers, checks of earlier stamps and open-for-writing behaviour are validated by TLC; the hash stamp must be a function of the content and injective within a kind (exhaustive sweeps over the content and listing universes plus random walks)."),
+ "C14": ("6.C14", "A TLA+ model of the type-indexed resource state (one slot per resource type) and of the map resource on top of it is advanced from operation arguments; random sequences of every ResourceState method with matching and non-matching state types over three resource types, and of every map access/checker route over two key types, are executed on the real code and every returned value is validated by TLC."),
+ "C16": ("6.C16", "Differential replay: every scenario is executed four times on fresh Pie instances (fresh hash seeds; in-process and in a second process) and TLC (TraceEq.tla) requires the complete event streams, outputs and store dumps (iteration orders, ranks) to be identical."),
 }
 
 checks = []
@@ -52,10 +58,16 @@ m = {
            "source_commits": ["c9aba4a", "ea2c417"], "add_only": True},
  "engines": [
    {"name": "pie-trace", "path": "/verif/spec/PieTrace.tla", "serves_properties": sorted(vlib.PIE_PROPS.keys()),
-    "kind_free_text": "TLC trace validation: PieCore (abstract store + from-scratch oracle) and PieMon (property monitors) evaluated on every event recorded by /verif/harness from the real library"},
+    "kind_free_text": "TLC trace validation: PieCore (abstract store + from-scratch oracle) and PieMon (property monitors) evaluated on every event recorded by /verif/harness from the real library; the same monitors are model-checked on the operational specification Pie.tla (lazily generated programs) and TLC-simulated behaviours of Pie.tla are replayed on the implementation"},
+   {"name": "dag-trace", "path": "/verif/spec/DagTrace.tla", "serves_properties": ["C10", "C11"],
+    "kind_free_text": "DagPK.tla (Pearce-Kelly model) model-checked against DagCore.tla; operation sequences executed on pie_graph::DAG validated by TLC"},
+   {"name": "unit-trace", "path": "/verif/spec/UnitTrace.tla", "serves_properties": ["C12", "C13", "C14"],
+    "kind_free_text": "small TLA+ models (UnitModels.tla) of output checkers, file checkers and typed resource state / map resource; logged calls of the real code validated by TLC"},
+   {"name": "trace-eq", "path": "/verif/spec/TraceEq.tla", "serves_properties": ["C16"],
+    "kind_free_text": "differential replay compared event by event by TLC"},
  ],
  "checks": checks,
- "notes": "fix: commits in /repo: 0fca12d (F1, C02/C11), 8f330fd (F2, C19). Known findings: /verif/known_findings.json.",
+ "notes": "fix: commits in /repo: 0fca12d (F1, C02/C11), 8f330fd (F2, C19), e0e9578 (F4, C13), 9331317 (F3, C17). Known findings (open: K1 C03, K2 C08, K3/K4/K5 C20): /verif/known_findings.json.",
  "not_applicable": pending,
 }
 json.dump(m, open(os.path.join(VERIF, "MANIFEST.json"), "w"), indent=1)
